@@ -8,7 +8,7 @@ import json, os, subprocess, sys, tempfile, argparse, concurrent.futures, shutil
 
 VERIF = '/verif'
 REPO = '/repo'
-BIN = '/verif/bin/flytsa'
+BIN = os.environ.get('FLYTSA_BIN', '/verif/bin/flytsa')
 
 def load_catalog():
     cat = []
@@ -16,6 +16,11 @@ def load_catalog():
     for m in d['mutants']:
         m['kind'] = 'mutant'
         cat.append(m)
+    ap = f'{VERIF}/sa/selftest/agent_mutants.json'
+    if os.path.exists(ap):
+        for m in json.load(open(ap))['mutants']:
+            m['kind'] = 'mutant'
+            cat.append(m)
     d = json.load(open(f'{VERIF}/sa/selftest/benign_variants.json'))
     for m in d['variants']:
         m['kind'] = 'benign'
